@@ -99,3 +99,10 @@ def empty1(ctx: Ctx, chk) -> None:
             chk.refute(rule, fkey(load, c), "the file text is parsed without the empty-file default: an empty file raises a read error instead of loading as an empty registry", ctx.loc(load, c))
         else:
             raise AnalysisError(f"EMPTY-1: argument shape `{norm(a) if a is not None else ''}` not recognised")
+
+
+def thorough(ctx: Ctx, chk) -> None:
+    from .common import prune_diff
+
+    entries = [(ctx.func(LOAD), None)]
+    prune_diff(ctx, chk, entries)
